@@ -26,7 +26,7 @@ int gv_exc;
 Index gv_k0;   /* ghost index (forall-introduction) */
 
 enum { stage_init, stage_ordering, stage_x0, stage_q0 };
-enum { K_NONE, K_GARBAGE, K_ZERO, K_UNIT, K_TROW, K_QXX_ROW, K_Q0_COL, K_X };
+enum { K_NONE, K_GARBAGE, K_ZERO, K_UNIT, K_SCATTER, K_SOLVED_RHS, K_TROW, K_QXX_ROW, K_Q0_COL, K_X };
 
 struct gv_pair { Buffer first; bool second; };
 struct MTF { Key key_[N]; Buffer buf_[N]; size_t active; };
@@ -46,6 +46,10 @@ struct AdjEnvelope {
   /* ghost */
   int gv_reg_epoch;        /* bumped whenever the regularisation (min_x list) changes */
   Index gv_i0, gv_p0;      /* C20: a ghost unknown i0 (caller numbering) and its position p0 = invp(i0) in the ordering */
+  /* ghost model of the (homogenised) design matrix in compressed row storage: values, column indices, and the row windows
+     [gv_is,gv_ie) of row gv_qi and [gv_js,gv_je) of row gv_qj -- the two rows q_bb(i,j) asks for */
+  Float *gv_dm_val; Index *gv_dm_ind; long gv_dm_nnz;
+  Index gv_qi, gv_qj; long gv_is, gv_ie, gv_js, gv_je;
   bool gv_z0;              /* C20: "the pivot of row p0 of the factorised envelope is zero" */
 };
 
@@ -73,6 +77,7 @@ struct AdjEnvelope {
    ((A)->stage < stage_x0 || (A)->nullity >= 0) &&                                                                  \
    ((A)->init_x || (TAG_IS(&(A)->x, K_X, 0, (A)->gv_reg_epoch) && (A)->min_x_list != NULL)) &&                       \
    /* caches */                                                                                                    \
+   ((A)->init_q_bb || (A)->tmpres.dim == (A)->parameters) &&                                                       \
    MTF_INV(&(A)->indbuf) && MTF_INV(&(A)->q0ind) && DIMS_EQ((A)->qxxbuf, (A)->parameters) &&                        \
    DIMS_EQ((A)->q0buf, (A)->parameters) &&                                                                          \
    ((A)->stage >= stage_x0 || ((A)->indbuf.active == 0 && (A)->q0ind.active == 0)) &&                               \
@@ -102,7 +107,9 @@ static void Vec_set_zero(struct Vec *v) { v->gv_kind = K_ZERO; }
 static void Vec_set(struct Vec *v, Index i, Float val)
 {
   __CPROVER_assert(1 <= i && i <= v->dim, "Vec::operator(): index inside the vector");
-  if (v->gv_kind == K_ZERO && val == 1) { v->gv_kind = K_UNIT; v->gv_key = i; } else v->gv_kind = K_GARBAGE;
+  if (v->gv_kind == K_ZERO && val == 1) { v->gv_kind = K_UNIT; v->gv_key = i; }
+  else if (v->gv_kind == K_ZERO || v->gv_kind == K_UNIT || v->gv_kind == K_SCATTER) v->gv_kind = K_SCATTER;   /* zero vector + scattered entries */
+  else v->gv_kind = K_GARBAGE;
 }
 static Float Vec_get(const struct Vec *v, Index i)
 {
@@ -149,8 +156,48 @@ static void AE_lowerSolve_vec(struct AdjEnvelope *self, Index start, Index stop,
 static void AE_env_solve_vec(struct AdjEnvelope *self, struct Vec *v)
 {
   __CPROVER_assert(v->dim == self->parameters, "envelope.solve(v.begin(), v.dim()): v.dim() is the dimension of the envelope");
-  v->gv_kind = (v->gv_kind == K_UNIT) ? K_Q0_COL : K_GARBAGE;
+  v->gv_kind = (v->gv_kind == K_UNIT) ? K_Q0_COL : (v->gv_kind == K_SCATTER || v->gv_kind == K_ZERO) ? K_SOLVED_RHS : K_GARBAGE;   /* an empty row leaves the zero vector */
 }
+static void AE_env_solve_vec_n(struct AdjEnvelope *self, struct Vec *v, Index n)
+{
+  __CPROVER_assert(n == self->parameters, "envelope.solve(v.begin(), n): n is the dimension of the envelope");
+  AE_env_solve_vec(self, v);
+}
+/* read of a vector that must hold inv(N) * (zero vector + scattered row)  (q_bb, FULL_VECTOR branch) */
+static Float Vec_get_solved(const struct Vec *v, Index i)
+{
+  __CPROVER_assert(v->gv_kind == K_SOLVED_RHS || v->gv_kind == K_Q0_COL, "q_bb: the scratch vector holds the solved right-hand side built in THIS call");
+  return Vec_get(v, i);
+}
+/* design_matrix->begin/end/ibegin(r): windows of the CRS arrays; q_bb asks only for rows i and j */
+#define DM_ROW_OK(A) ((A)->gv_dm_nnz >= 0 && (A)->gv_dm_nnz <= 100000000 && __CPROVER_r_ok((A)->gv_dm_val, (A)->gv_dm_nnz * sizeof(Float)) && \
+                      __CPROVER_r_ok((A)->gv_dm_ind, (A)->gv_dm_nnz * sizeof(Index)) && 0 <= (A)->gv_is && (A)->gv_is <= (A)->gv_ie && (A)->gv_ie <= (A)->gv_dm_nnz && \
+                      0 <= (A)->gv_js && (A)->gv_js <= (A)->gv_je && (A)->gv_je <= (A)->gv_dm_nnz && \
+                      ((A)->gv_qi != (A)->gv_qj || ((A)->gv_is == (A)->gv_js && (A)->gv_ie == (A)->gv_je)))
+static const Float *DM_begin(const struct AdjEnvelope *self, Index r)
+{
+  __CPROVER_assert(r == self->gv_qi || r == self->gv_qj, "design matrix row asked is i or j");
+  return self->gv_dm_val + (r == self->gv_qi ? self->gv_is : self->gv_js);
+}
+static const Float *DM_end(const struct AdjEnvelope *self, Index r)
+{
+  __CPROVER_assert(r == self->gv_qi || r == self->gv_qj, "design matrix row asked is i or j");
+  return self->gv_dm_val + (r == self->gv_qi ? self->gv_ie : self->gv_je);
+}
+static const Index *DM_ibegin(const struct AdjEnvelope *self, Index r)
+{
+  __CPROVER_assert(r == self->gv_qi || r == self->gv_qj, "design matrix row asked is i or j");
+  return self->gv_dm_ind + (r == self->gv_qi ? self->gv_is : self->gv_js);
+}
+/* forall-elimination of the sparse-matrix invariant "every stored column index is in [1, columns]" at the element read */
+static Index gv_cind(const struct AdjEnvelope *self, const Index *p)
+{
+  __CPROVER_assert(SAME(p, self->gv_dm_ind) && OFF(p) >= 0 && OFF(p) < self->gv_dm_nnz * (long)sizeof(Index), "column index read inside the CRS index array");
+  Index c = *p;
+  __CPROVER_assume(1 <= c && c <= self->parameters);
+  return c;
+}
+#define GV_CIND(p) gv_cind(self, (p))
 static void AE_q0_inverse(struct AdjEnvelope *self) {}
 static Index AID_rows(const void *data) { Index r = nondet_Index(); __CPROVER_assume(r >= 0 && r <= 1000000); return r; }
 static Index AID_columns(const void *data) { Index r = nondet_Index(); __CPROVER_assume(r >= 1 && r <= 1000000); return r; }
@@ -358,6 +405,39 @@ __CPROVER_ensures(self->init_x && self->init_q0 && self->init_residuals && self-
 GV_CANARY("AE_reset entry");
 //@ end
 
+/* q_bb(i,j): cofactor of adjusted observations i,j.  Inside the profile it only reads q0; otherwise (FULL_VECTOR) it
+   scatters row j into the scratch vector tmpres, solves, and takes the dot product with row i.  The scratch vector read
+   at the end must be the solved right-hand side built in THIS call (no leftover of an earlier question). */
+//@ contract AE_q_bb
+__CPROVER_requires(AE_INV(self) && gv_exc == 0 && DM_ROW_OK(self) && i == self->gv_qi && j == self->gv_qj)
+__CPROVER_assigns(gv_exc, self->stage, self->init_residuals, self->init_q0, self->init_x, self->init_q_bb, self->squares, self->nullity,
+                  self->x0, self->qxxbuf, self->tmpres)
+__CPROVER_ensures(AE_INV(self) && gv_exc == 0 && self->stage == stage_q0)
+//@ entry AE_q_bb
+GV_CANARY("AE_q_bb entry");
+//@ loop AE_q_bb 1
+__CPROVER_assigns(b, n, qbb, b2, e2, n2, qk)
+__CPROVER_loop_invariant(SAME(b, e) && SAME(b, self->gv_dm_val) && OFF(b) >= 8 * self->gv_is && OFF(b) <= OFF(e) && OFF(e) == 8 * self->gv_ie &&
+                         (OFF(e) - OFF(b)) % 8 == 0 && SAME(n, self->gv_dm_ind) && 2 * OFF(n) == OFF(b))
+__CPROVER_decreases(OFF(e) - OFF(b))
+//@ loop AE_q_bb 2
+__CPROVER_assigns(b2, n2, s, qk)
+__CPROVER_loop_invariant(SAME(b2, e2) && SAME(b2, self->gv_dm_val) && OFF(b2) >= 8 * self->gv_js && OFF(b2) <= OFF(e2) && OFF(e2) == 8 * self->gv_je &&
+                         (OFF(e2) - OFF(b2)) % 8 == 0 && SAME(n2, self->gv_dm_ind) && 2 * OFF(n2) == OFF(b2))
+__CPROVER_decreases(OFF(e2) - OFF(b2))
+//@ loop AE_q_bb 3
+__CPROVER_assigns(b, n, self->tmpres)
+__CPROVER_loop_invariant(SAME(b, e) && SAME(b, self->gv_dm_val) && OFF(b) >= 8 * self->gv_js && OFF(b) <= OFF(e) && OFF(e) == 8 * self->gv_je &&
+                         (OFF(e) - OFF(b)) % 8 == 0 && SAME(n, self->gv_dm_ind) && 2 * OFF(n) == OFF(b) &&
+                         self->tmpres.dim == self->parameters && (self->tmpres.gv_kind == K_ZERO || self->tmpres.gv_kind == K_UNIT || self->tmpres.gv_kind == K_SCATTER))
+__CPROVER_decreases(OFF(e) - OFF(b))
+//@ loop AE_q_bb 4
+__CPROVER_assigns(b, n, s)
+__CPROVER_loop_invariant(SAME(b, e) && SAME(b, self->gv_dm_val) && OFF(b) >= 8 * self->gv_is && OFF(b) <= OFF(e) && OFF(e) == 8 * self->gv_ie &&
+                         (OFF(e) - OFF(b)) % 8 == 0 && SAME(n, self->gv_dm_ind) && 2 * OFF(n) == OFF(b))
+__CPROVER_decreases(OFF(e) - OFF(b))
+//@ end
+
 //@ harness
 static void mk_state(struct AdjEnvelope *A)
 {
@@ -399,4 +479,18 @@ void h_min_x_list(void)
   GV_CANARY("h_min_x_list end");
 }
 void h_reset(void) { struct AdjEnvelope A; mk_state(&A); const void *data; AE_reset(&A, data); GV_CANARY("h_reset end"); }
+
+void h_q_bb(void)
+{
+  struct AdjEnvelope A; mk_state(&A);
+  long nnz;
+  __CPROVER_assume(nnz >= 0 && nnz <= 100000000);
+  A.gv_dm_nnz = nnz;
+  A.gv_dm_val = malloc(nnz * sizeof(Float));
+  A.gv_dm_ind = malloc(nnz * sizeof(Index));
+  __CPROVER_assume(A.gv_dm_val != NULL && A.gv_dm_ind != NULL && DM_ROW_OK(&A));
+  Index i = A.gv_qi, j = A.gv_qj;
+  Float r = AE_q_bb(&A, i, j);
+  GV_CANARY("h_q_bb end");
+}
 //@ end
